@@ -27,7 +27,7 @@ ArgsEcho == << A("pe", "path", "one", TRUE, FALSE), A("qe", "query", "one", TRUE
                A("ph", "header", "one", TRUE, FALSE), A("pho", "header", "opt", TRUE, FALSE) >>
 (* macro endpoint exercising attribute forms: path parameters without `name`, log_as equal to ANOTHER parameter's template name *)
 ArgsAttrs == << A("b", "path", "one", TRUE, TRUE), A("bee", "path", "one", TRUE, FALSE), A("sea", "path", "one", TRUE, FALSE),
-                A("pq", "query", "one", TRUE, TRUE), A("hh", "header", "one", TRUE, FALSE) >>
+                A("pq", "query", "one", TRUE, TRUE), A("hh", "header", "one", TRUE, FALSE), A("ls", "query", "many", FALSE, FALSE) >>
 ArgsIds == << A("ids", "rpath", "many", TRUE, FALSE) >>
 ArgsRegex == << A("n", "rpath", "one", TRUE, FALSE) >>
 ArgsQuery == << A("qs", "query", "one", FALSE, FALSE), A("qo", "query", "opt", TRUE, FALSE), A("ql", "query", "many", TRUE, FALSE),
